@@ -863,6 +863,24 @@ func nonSelectorKeys(ch []c08Dirs) map[string]bool {
 	return out
 }
 
+// selectorKeys: keys set by commonLabels or by labels entries with includeSelectors.
+func selectorKeys(ch []c08Dirs) map[string]bool {
+	out := map[string]bool{}
+	for _, d := range ch {
+		for _, p := range d.CommonLabels {
+			out[p.K] = true
+		}
+		for _, e := range d.Labels {
+			if e.IncludeSelectors {
+				for _, p := range e.Pairs {
+					out[p.K] = true
+				}
+			}
+		}
+	}
+	return out
+}
+
 func chainHasSelectors(ch []c08Dirs) bool {
 	for _, d := range ch {
 		if len(d.CommonLabels) > 0 {
@@ -911,28 +929,6 @@ func expectedLabels(in []c08kv, ch []c08Dirs, which int) []c08kv {
 		apply(d.CommonLabels)
 	}
 	return cur
-}
-
-// keySetTwice: two directives of the chain set the key to different values.
-func keySetTwice(ch []c08Dirs, key string) bool {
-	vals := []string{}
-	add := func(l []c08kv) {
-		if v, ok := lookupKV(l, key); ok {
-			vals = append(vals, v)
-		}
-	}
-	for _, d := range ch {
-		for _, e := range d.Labels {
-			add(e.Pairs)
-		}
-		add(d.CommonLabels)
-	}
-	for i := 1; i < len(vals); i++ {
-		if vals[i] != vals[0] {
-			return true
-		}
-	}
-	return false
 }
 
 func firstDiffKey(want, got []c08kv) string {
@@ -1055,13 +1051,12 @@ func oracles08(r *Run, t *c08Tree, flat []flatRes, bo buildOut) {
 		}
 		ios = append(ios, io{fr, in.YNode(), out.YNode()})
 	}
+	// Only one failure shape of own_selector / selects_preserved is a listed finding (documented behaviour): the
+	// broken key was written by a labels entry WITHOUT includeSelectors although a selector uses it - either the
+	// input selector or a commonLabels / includeSelectors directive of the chain put it there.
 	classify := func(law string, fr flatRes, key string, selIn []c08kv) string {
-		if keySetTwice(fr.Chain, key) {
-			// the key is set by two directives of the chain with different values: the entries the first one
-			// created share one yaml.Node, the second one overwrites all of them
-			return "C08/" + law + "/shared-node-overwrite"
-		}
-		if _, had := lookupKV(selIn, key); had && nonSelectorKeys(fr.Chain)[key] {
+		_, had := lookupKV(selIn, key)
+		if nonSelectorKeys(fr.Chain)[key] && (had || selectorKeys(fr.Chain)[key]) {
 			return "C08/" + law + "/selected-key-overridden-without-includeSelectors"
 		}
 		return "C08/" + law
@@ -1076,7 +1071,7 @@ func oracles08(r *Run, t *c08Tree, flat []flatRes, bo buildOut) {
 				r.Count("oracle", "own_selector")
 				if ok, key := subKV(selOf(x.out), podLabelsOf(x.out)); !ok {
 					report("own_selector", classify("own_selector", x.fr, key, selIn),
-						fmt.Sprintf("%s %s: selector %v no longer matches its template labels %v (key %c08q)", kind, x.fr.Res.Name, selOf(x.out), podLabelsOf(x.out), key))
+						fmt.Sprintf("%s %s: selector %v no longer matches its template labels %v (key %q)", kind, x.fr.Res.Name, selOf(x.out), podLabelsOf(x.out), key))
 				}
 			}
 		}
@@ -1097,7 +1092,7 @@ func oracles08(r *Run, t *c08Tree, flat []flatRes, bo buildOut) {
 				want = expectedLabels(selIn, x.fr.Chain, 2)
 			}
 			if got := selOf(x.out); !kvEq(want, got) {
-				report("no_selector_change", classify("selector_union", x.fr, firstDiffKey(want, got), nil),
+				report("no_selector_change", "C08/selector_union",
 					fmt.Sprintf("%s %s: selector %v, expected %v (labels without includeSelectors must not reach it)", kind, x.fr.Res.Name, got, want))
 			}
 		}
@@ -1109,7 +1104,7 @@ func oracles08(r *Run, t *c08Tree, flat []flatRes, bo buildOut) {
 				want := expectedLabels(lmapOf(getAt(x.in, []string{"metadata", "labels"})), x.fr.Chain, 0)
 				got := lmapOf(getAt(x.out, []string{"metadata", "labels"}))
 				if !kvEq(want, got) {
-					report("exact_locations", classify("metadata_union", x.fr, firstDiffKey(want, got), nil),
+					report("exact_locations", "C08/metadata_union",
 						fmt.Sprintf("%s %s: metadata.labels %v, expected %v", kind, x.fr.Res.Name, got, want))
 				}
 			}
@@ -1118,7 +1113,7 @@ func oracles08(r *Run, t *c08Tree, flat []flatRes, bo buildOut) {
 				want := expectedLabels(podLabelsOf(x.in), x.fr.Chain, 1)
 				got := podLabelsOf(x.out)
 				if !kvEq(want, got) {
-					report("exact_locations", classify("template_union", x.fr, firstDiffKey(want, got), nil),
+					report("exact_locations", "C08/template_union",
 						fmt.Sprintf("%s %s: pod template labels %v, expected %v", kind, x.fr.Res.Name, got, want))
 				}
 			}
@@ -1136,7 +1131,7 @@ func oracles08(r *Run, t *c08Tree, flat []flatRes, bo buildOut) {
 						continue
 					}
 					report("exact_locations", "C08/frame",
-						fmt.Sprintf("%s %s: value at %s changed from %c08q to %c08q", kind, x.fr.Res.Name, p, v, w))
+						fmt.Sprintf("%s %s: value at %s changed from %q to %q", kind, x.fr.Res.Name, p, v, w))
 				}
 			}
 			for p := range lo {
@@ -1175,7 +1170,7 @@ func oracles08(r *Run, t *c08Tree, flat []flatRes, bo buildOut) {
 			r.Count("oracle", "selects_preserved")
 			if ok, key := subKV(selOf(s.out), podLabelsOf(w.out)); !ok {
 				report("selects_preserved", classify("selects_preserved", s.fr, key, selIn),
-					fmt.Sprintf("%s %s selected the pods of %s %s before the build and no longer does: selector %v, pod labels %v (key %c08q)",
+					fmt.Sprintf("%s %s selected the pods of %s %s before the build and no longer does: selector %v, pod labels %v (key %q)",
 						s.fr.Res.Kind, s.fr.Res.Name, w.fr.Res.Kind, w.fr.Res.Name, selOf(s.out), podLabelsOf(w.out), key))
 			}
 		}
@@ -1500,7 +1495,7 @@ func oracleFields08(r *Run, t *c08Tree, flat []flatRes, bo buildOut) {
 						cls += "/default-row-shadowed-by-narrower-custom-spec"
 					}
 					r.Violation(OracleViolation{Law: "fields_only_add", Class: cls, Replay: t,
-						Detail: fmt.Sprintf("%s %s: label %c08q reaches %s without the custom `fields` of the labels entries but not with them (%v vs %v)",
+						Detail: fmt.Sprintf("%s %s: label %q reaches %s without the custom `fields` of the labels entries but not with them (%v vs %v)",
 							fr.Res.Kind, fr.Res.Name, e.K, name, without, with)})
 				}
 			}
@@ -1538,6 +1533,65 @@ func loadCorpus08() c08Corpus {
 	return c
 }
 
+// configBuild08 runs a build whose kustomization adds label field specs through `configurations:`. It is not
+// sent to the model (custom transformer configurations are outside it); its purpose is the builds that FOLLOW
+// in the same process: the default field-spec tables are process-wide state, and a configuration build that
+// leaks into them (e.g. TransformerConfig.DeepCopy sharing a slice) shows up as model mismatches / union
+// violations of the ordinary builds after it. The build itself is checked for its documented effect.
+func configBuild08(r *Run, rng *Rng) {
+	key, val := rng.Pick([]string{"cfg", "origin", "zone"}), rng.Pick([]string{"a", "b"})
+	extra := rng.Pick([]string{"spec/extra/labels", "spec/meta/labels", "aaa/labels"})
+	fs := filesys.MakeFsInMemory()
+	_ = fs.MkdirAll("/c")
+	_ = fs.WriteFile("/c/kustomization.yaml", []byte("apiVersion: kustomize.config.k8s.io/v1beta1\nkind: Kustomization\nresources:\n- w.yaml\n- d.yaml\n"+
+		"configurations:\n- cfg.yaml\ncommonLabels:\n  "+key+": "+val+"\n"))
+	_ = fs.WriteFile("/c/cfg.yaml", []byte("commonLabels:\n- path: "+extra+"\n  create: true\n  kind: Widget\n- path: spec/other/labels\n  create: true\n  kind: Gadget\n"))
+	_ = fs.WriteFile("/c/w.yaml", []byte("apiVersion: example.com/v1\nkind: Widget\nmetadata:\n  name: w\nspec:\n  size: 1\n"))
+	_ = fs.WriteFile("/c/d.yaml", []byte("apiVersion: apps/v1\nkind: Deployment\nmetadata:\n  name: d\nspec:\n  template:\n    spec:\n      containers:\n      - name: c\n        image: nginx\n"))
+	var outs map[string]*kyaml.RNode
+	cls, msg := protect(func() error {
+		m, err := krusty.MakeKustomizer(krusty.MakeDefaultOptions()).Run(fs, "/c")
+		if err != nil {
+			return err
+		}
+		outs = map[string]*kyaml.RNode{}
+		for _, res := range m.Resources() {
+			outs[res.GetName()] = res.RNode.Copy()
+		}
+		return nil
+	})
+	r.Count("config_build", cls)
+	r.AddEval("configbuild/"+key+val+extra, cls == ClsOk)
+	bad := func(detail string) {
+		r.Violation(OracleViolation{Law: "exact_locations", Class: "C08/configurations", Detail: detail,
+			Replay: map[string]string{"note": "configuration build (custom commonLabels field spec for kind Widget at " + extra + ")"}})
+	}
+	if cls != ClsOk {
+		bad("build with `configurations:` failed: " + c08firstN(msg, 200))
+		return
+	}
+	want := []c08kv{{key, val}}
+	w, d := outs["w"], outs["d"]
+	if w == nil || d == nil {
+		bad("resource lost")
+		return
+	}
+	if got := lmapOf(getAt(w.YNode(), strings.Split(extra, "/"))); !kvEq(got, want) {
+		bad(fmt.Sprintf("Widget: labels at the configured path %s are %v, expected %v", extra, got, want))
+	}
+	for name, n := range map[string]*kyaml.RNode{"Widget": w, "Deployment": d} {
+		if got := lmapOf(getAt(n.YNode(), []string{"metadata", "labels"})); !kvEq(got, want) {
+			bad(fmt.Sprintf("%s: metadata.labels %v, expected %v", name, got, want))
+		}
+	}
+	if got := lmapOf(getAt(d.YNode(), []string{"spec", "template", "metadata", "labels"})); !kvEq(got, want) {
+		bad(fmt.Sprintf("Deployment: pod template labels %v, expected %v", got, want))
+	}
+	if got := lmapOf(getAt(d.YNode(), []string{"spec", "selector", "matchLabels"})); !kvEq(got, want) {
+		bad(fmt.Sprintf("Deployment: selector %v, expected %v", got, want))
+	}
+}
+
 func runC08(r *Run, rng *Rng, tier string) error {
 	rng = rng.Fork() // decorrelate consecutive seeds (NewRng streams of s and s+1 overlap)
 	nBuild, nFilter, nSearch := 260, 500, 500
@@ -1557,6 +1611,9 @@ func runC08(r *Run, rng *Rng, tier string) error {
 	}
 	for i := 0; i < nBuild; i++ {
 		g := rng.Fork()
+		if i%25 == 3 {
+			configBuild08(r, g.Fork()) // process-wide table state: see configBuild08
+		}
 		cnt := 0
 		runBuildCase(r, c08genTree(g, 1+g.Intn(3), &cnt, true), true)
 	}
@@ -1565,6 +1622,9 @@ func runC08(r *Run, rng *Rng, tier string) error {
 	}
 	for i := 0; i < nSearch; i++ {
 		g := rng.Fork()
+		if i%40 == 7 {
+			configBuild08(r, g.Fork())
+		}
 		cnt := 0
 		runBuildCase(r, c08genTree(g, 1+g.Intn(3), &cnt, true), false)
 	}
@@ -1596,7 +1656,7 @@ func replayC08(path string) (bool, string, error) {
 	}
 	if wrap.Filter != nil {
 		cls, doc, msg := execFilter(*wrap.Filter)
-		return cls == ClsPanic, fmt.Sprintf("class=%s msg=%c08q after=%s", cls, msg, docString(doc)), nil
+		return cls == ClsPanic, fmt.Sprintf("class=%s msg=%q after=%s", cls, msg, docString(doc)), nil
 	}
 	if t == nil {
 		return false, "", fmt.Errorf("replay file has neither a build tree nor a filter case")
@@ -1608,7 +1668,7 @@ func replayC08(path string) (bool, string, error) {
 	oracles08(r, t, flat, bo)
 	oracleFields08(r, t, flat, bo)
 	var b strings.Builder
-	fmt.Fprintf(&b, "class=%s msg=%c08q\n", bo.cls, bo.msg)
+	fmt.Fprintf(&b, "class=%s msg=%q\n", bo.cls, bo.msg)
 	for _, fr := range flat {
 		if o, ok := bo.outs[fr.Res.Name]; ok {
 			s, _ := o.String()
